@@ -70,7 +70,10 @@ hooks_commits = subprocess.run(['git','-C','/repo','log','--format=%H %s'],captu
 hook_shas = [l.split()[0] for l in hooks_commits if 'verif hooks' in l]
 base = json.load(open('/root/.vp/BASELINE.json'))
 checks = []
+FUZZ = {'C01','C05','C11','C12','C16','C17'}
 for pid,(tech,text,note,ref) in sorted(CLAIMED.items()):
+    if pid in FUZZ:
+        tech += '; coverage-guided libFuzzer target with the same oracle in the thorough tier'
     checks.append({
         'property_id': pid,
         'quick_cmd': f'./verif check {pid} --tier quick',
@@ -94,7 +97,7 @@ m = {
    'add_only': True,
  },
  'engines': [
-   {'name': 'vp-harness', 'path': '/verif/harness', 'serves_properties': sorted(CLAIMED), 'kind_free_text': 'Rust binary: proptest TestRunner (fixed seed from VERIF_SEED, shrinking) over a choice stream + bounded-exhaustive enumeration + regression replay; 16 worker processes; reference models as oracles'},
+   {'name': 'vp-harness', 'path': '/verif/harness', 'serves_properties': sorted(CLAIMED), 'kind_free_text': 'Rust library + binary: proptest TestRunner (fixed seed from VERIF_SEED, shrinking) over a choice stream + bounded-exhaustive enumeration + regression replay; 16 worker processes; reference models as oracles; /verif/fuzz holds libFuzzer targets that call the same property modules'},
  ],
  'checks': checks,
  'not_applicable': na,
